@@ -123,6 +123,9 @@ DRV_CMD(rd_hist, "rd.hist") {
         case 'q': res = prefixedU<std::string>(r, n); break;
         case 'i': res = prefixedI<std::string>(r, n); break;
         case 'v': res = prefixedU<std::vector<uint16_t>>(r, n); break;
+        // strings of wider characters: n elements of 2 / 4 bytes each (the encoded size is n * sizeof(CharT))
+        case 'W': { std::u16string v(n, u'\0'); r.Read(v); res = showBytes(std::string(reinterpret_cast<const char*>(v.data()), v.size() * 2)); break; }
+        case 'X': { std::u32string v(n, U'\0'); r.Read(v); res = showBytes(std::string(reinterpret_cast<const char*>(v.data()), v.size() * 4)); break; }
         case 'c': { std::vector<uint32_t> v(n); r.Read(v); res = showBytes(std::string(reinterpret_cast<const char*>(v.data()), v.size() * 4)); break; }
         default: throw BadOp();
       }
